@@ -53,14 +53,15 @@ type act struct {
 }
 
 type world struct {
-	c       *core.Ctx
-	rw      bool
-	m       lockAPI
-	acts    []*act
-	writers int
-	readers int
-	stash   []func() // release functions kept for a later repeated release
-	shared  map[bool]sync.Locker
+	c           *core.Ctx
+	rw          bool
+	m           lockAPI
+	acts        []*act
+	writers     int
+	readers     int
+	stash       []func() // release functions kept for a later repeated release
+	shared      map[bool]sync.Locker
+	lockerHeavy bool
 }
 
 func (w *world) excl(write bool) bool { return !w.rw || write }
@@ -233,7 +234,7 @@ func (w *world) opLocker(a *act) {
 	write := !w.rw || c.S.PlanP(450)
 	c.Descf("actor %d: Locker(write=%v).Lock/Unlock", a.id, write)
 	l := w.m.Locker(write)
-	if c.S.PlanP(550) {
+	if w.lockerHeavy || c.S.PlanP(400) {
 		// one sync.Locker shared by several goroutines (each Lock is paired with one Unlock)
 		if w.shared[write] == nil {
 			w.shared[write] = l
@@ -262,7 +263,11 @@ func (w *world) opLocker(a *act) {
 func (w *world) runActor(a *act, nops int) {
 	for i := 0; i < nops; i++ {
 		w.maybeStashed()
-		switch w.c.S.Plan(10) {
+		k := w.c.S.Plan(10)
+		if w.lockerHeavy && k < 7 {
+			k = 9 // locker-heavy runs: most operations go through (shared) sync.Locker adapters
+		}
+		switch k {
 		case 0, 1, 2, 3, 4, 5:
 			w.opLock(a)
 		case 6, 7, 8:
@@ -374,6 +379,7 @@ func run(c *core.Ctx) {
 	} else {
 		w.m = mtxAPI{&csync.Mutex{}}
 	}
+	w.lockerHeavy = c.S.PlanP(200)
 	nact := c.IntRange(2, 4)
 	maxops := 3
 	if c.Thorough {
